@@ -175,6 +175,8 @@ def plan_C04(run):
     # stratified: every model x every exact relation among the sigmas of a team (a member at the team's mean variance, a team
     # variance that is a perfect square, all equal), every rotation of that team's members
     campaign(run, "sigma-patterns", {"C04"}, lambda s, r: drivers.pattern_groups(s, r, "C04"))
+    # stratified: outcome values spanning more than 2^53, as scores and as ranks, in every listing of the teams
+    campaign(run, "wide-range-outcomes", {"C04"}, lambda s, r: drivers.widerange_perm_groups(s, r, "C04"))
     return {"rule": "a game and its presentations under team permutations (all n! for n <= %d, sampled above) with members "
                     "permuted; posterior of every player compared across presentations within twice the budget; partial pairing: "
                     "only permutations keeping tied teams in relative order" % upto}
